@@ -274,8 +274,8 @@ func c15Events(c *kit.Ctx, k *keyer, s *c15Slots) {
 				switch v {
 				case evStopped:
 					nStop++
-					c.Check(fnIn(fn, stopRun), "R15.4", k.key(fn, "EventStopped literal"), posOf(ins), "EventStopped literal inside StopAnnouncer.Run",
-						"EventStopped literal outside StopAnnouncer.Run: stopped can be sent to a tracker without the HasAnnounced filter")
+					c.Check(c15OnlyUsedFrom(c, fn, stopRun, 2), "R15.4", k.key(fn, "EventStopped literal"), posOf(ins), "EventStopped literal inside StopAnnouncer.Run (or a helper only it calls / spawns)",
+						"EventStopped literal outside StopAnnouncer.Run and the helpers only it uses: stopped can be sent to a tracker without the HasAnnounced filter")
 				case evCompleted, evStarted:
 					if _, isIf := ins.(*ssa.BinOp); isIf {
 						continue // comparison
@@ -365,14 +365,43 @@ func c15Events(c *kit.Ctx, k *keyer, s *c15Slots) {
 	{
 		respArms := c15RecvArms(run, fResponseC)
 		inResp := c15ArmFlow(c, run, respArms)
+		// "control is inside the response arm of Run's select" at ins: in Run
+		// itself, or in a helper (no select of its own) all of whose call sites
+		// are inside that arm
+		var inRespArm func(ins ssa.Instruction, depth int) bool
+		inRespArm = func(ins ssa.Instruction, depth int) bool {
+			fn := ins.Parent()
+			if fn == run {
+				return inResp.Before(ins)
+			}
+			if depth <= 0 || fn.Parent() != nil {
+				return false
+			}
+			hasSelect := false
+			kit.Instrs(fn, func(j ssa.Instruction) {
+				if _, ok := j.(*ssa.Select); ok {
+					hasSelect = true
+				}
+			})
+			sites := c.StaticCallSites(fn)
+			if hasSelect || len(sites) == 0 {
+				return false
+			}
+			for _, site := range sites {
+				if site == nil || !inRespArm(site, depth-1) {
+					return false
+				}
+			}
+			return true
+		}
 		n := 0
 		for _, st := range fieldStores(c, fHasAnnounced) {
 			n++
 			key := k.key(st.Fn, "store HasAnnounced")
 			switch {
-			case st.Fn != run:
-				c.Bad("R15.4", key, posOf(st.Store), "HasAnnounced is written outside PeriodicalAnnouncer.Run")
-			case !inResp.Before(st.Store):
+			case !c15OnlyUsedFrom(c, st.Fn, run, 2):
+				c.Bad("R15.4", key, posOf(st.Store), "HasAnnounced is written outside PeriodicalAnnouncer.Run (and the helpers only it calls)")
+			case !inRespArm(st.Store, 2):
 				c.Bad("R15.4", key, posOf(st.Store), "HasAnnounced is set outside the `case resp := <-a.responseC` arm: a tracker that never replied successfully would receive stopped")
 			default:
 				c.OK("R15.4", key, posOf(st.Store), "HasAnnounced stored (%s) only in the response arm", kit.Canon(st.Val))
